@@ -44,18 +44,22 @@ pub struct SimCase {
     /// very long case files)
     #[serde(default)]
     pub repeat: u32,
+    /// added to every timestamp of the input (large absolute timestamps)
+    #[serde(default)]
+    pub base_ns: u64,
 }
 
 /// the packets of the input: `trace`, or `repeat` copies of it one millisecond apart
 pub fn effective_trace(c: &SimCase) -> Vec<(u64, bool)> {
+    let base = c.base_ns;
     if c.repeat <= 1 {
-        return c.trace.clone();
+        return c.trace.iter().map(|(t, s)| (t + base, *s)).collect();
     }
     let period = c.trace.last().map(|x| x.0).unwrap_or(0) + 1_000_000;
     let mut out = Vec::with_capacity(c.trace.len() * c.repeat as usize);
     for r in 0..c.repeat as u64 {
         for (t, s) in &c.trace {
-            out.push((t + r * period, *s));
+            out.push((t + r * period + base, *s));
         }
     }
     out
@@ -109,6 +113,7 @@ pub fn case_text(c: &SimCase) -> String {
         lines.push((*t, format!("{t},{d}{size}\n")));
     }
     for (t, sent) in &c.pad_lines {
+        let t = &(*t + c.base_ns);
         lines.push((*t, format!("{t},{}\n", if *sent { "sp" } else { "rp" })));
     }
     lines.sort_by_key(|l| l.0);
